@@ -113,6 +113,7 @@ def run(R):
                       'all records of one file list the same stations in the same order (as the format produces); weights are integers so '
                       'that floating-point sums are exact',
                       'sub-sampling (number_location_samples) draws from numpy.random: only its size and membership are checked',
+                      'angle differences of exactly half a bin are excluded (their outcome is a rounding artefact of the binary subtraction)',
                       'the compiled cscatangle path is not available in this environment (C20)']
     tmp = tempfile.mkdtemp(prefix='c18_')
     exprs, recs = [], []
@@ -129,6 +130,10 @@ def run(R):
             with open(fn, 'w', newline='') as f:
                 f.write(text)
             b10 = R.rng.choice([0, 0, 5, 10, 20, 40, 100, 13])
+            # a pair of samples exactly half a bin apart is decided by the rounding of the binary subtraction (153.6 - 153.1 < 0.5
+            # in binary64), not by the property: such knife-edge files are avoided by moving the bin size by a tenth
+            if b10 and any(2 * abs(x[k] - y[k]) == b10 for _, sa in samples for _, sb in samples for x, y in zip(sa, sb) for k in (1, 2)):
+                b10 += 1
             rec = {'file_text': text if len(text) < 4000 else text[:4000] + '...', 'bin_size': b10 / 10.0, 'meta': meta}
             R.count(('file', i), nontrivial=len(samples) > 1)
             try:
